@@ -209,6 +209,8 @@ class ActionConfigFile(Action):
             cfg.__dict__.update(cfg_merged.__dict__)
             if cfg.get(dest) is None:
                 cfg[dest] = []
+            elif not isinstance(cfg[dest], list):
+                raise TypeError(f'Parser key "{dest}": a config is not expected to set the config option itself.')
             cfg[dest].append(cfg_path)
 
     def completer(self, prefix, **kwargs):
